@@ -35,7 +35,7 @@ type MPCase struct {
 func (c MPCase) RandSeed() uint64 { return c.Seed }
 
 var mpProtos = []string{"PublicKeyGen", "RelinearizationKeyGen", "RelinearizationKeyGenRoundTwo", "EvaluationKeyGen", "GaloisKeyGen", "KeySwitch", "PublicKeySwitch",
-	"EvaluationKeyGen", "GaloisKeyGen", "RelinearizationKeyGen"}
+	"EvaluationKeyGen", "GaloisKeyGen", "RelinearizationKeyGen", "Threshold"}
 
 func genMPCase(t *rapid.T) MPCase {
 	s := poolSpec(t, true, nil, 0)
@@ -67,6 +67,11 @@ type mpOps[S any] struct {
 	gen    func(party int, out *S) error // GenShare of party 0 or 1 with its own secret key
 	agg    func(a, b S, out *S) error
 	inputs func() string // fingerprint of every non-share input of GenShare (secret keys, CRP, ciphertext, public key)
+	// fin runs the finalising method of the protocol (GenPublicKey, GenEvaluationKey, KeySwitch, GenAdditiveShare ...)
+	// on the aggregated share and returns a fingerprint of what it produced. mode 0: freshly allocated receiver,
+	// 1: receiver that holds the result of an earlier use (other content, larger shape where possible),
+	// 2: receiver == input ciphertext where the method has one (else as 1). nil: no finaliser.
+	fin func(agg S, mode int) (string, error)
 }
 
 func mpCheck[S any, PS binShare[S]](c MPCase, rec *h.Rec, o mpOps[S]) error {
@@ -192,9 +197,76 @@ func mpCheck[S any, PS binShare[S]](c MPCase, rec *h.Rec, o mpOps[S]) error {
 	if !bytes.Equal(got, want) {
 		return fail("C09:"+name+".AggregateShares:"+cause+":wrong-value", "%s.AggregateShares with %s (reused output %v) differs from the aggregation of distinct shares into a fresh output (%d vs %d bytes)", name, aliasNames[c.Alias], c.Reuse, len(got), len(want))
 	}
+	// finaliser: receiver history / aliasing, aggregated share and all other inputs intact
+	if o.fin != nil {
+		preIn := o.inputs()
+		ag := clone(want)
+		var ref string
+		var ferr error
+		_, pan = protect(func() error { ref, ferr = o.fin(ag, 0); return ferr })
+		if pan != "" || ferr != nil {
+			rec.Class("finalize=reference-rejected")
+			rec.Note("finalize", fmt.Sprint(pan, ferr))
+		} else {
+			if !bytes.Equal(bin(&ag), want) || o.inputs() != preIn {
+				return fail("C09:"+name+".Finalize:input-mutated", "the finalising method of %s changed the aggregated share or another input (fresh receiver)", name)
+			}
+			for mode := 1; mode <= 2; mode++ {
+				ag := clone(want)
+				var got string
+				_, pan = protect(func() error { got, ferr = o.fin(ag, mode); return ferr })
+				cause := []string{"", "reused-out", "out==ctIn"}[mode]
+				if pan != "" {
+					return fail("C09:"+name+".Finalize:"+cause+":panic", "the finalising method of %s panicked: %s", name, pan)
+				}
+				if ferr != nil {
+					rec.Class("finalize=rejected-with-error")
+					continue
+				}
+				if !bytes.Equal(bin(&ag), want) || o.inputs() != preIn {
+					return fail("C09:"+name+".Finalize:"+cause+":input-mutated", "the finalising method of %s changed the aggregated share or another input", name)
+				}
+				if got != ref {
+					return fail("C09:"+name+".Finalize:"+cause+":wrong-value", "the finalising method of %s into a receiver used before (mode %d) differs from the result in a fresh receiver: %s vs %s", name, mode, trunc(got, 160), trunc(ref, 160))
+				}
+			}
+			rec.Class("finalize=identical")
+		}
+	}
+
 	rec.Class("result=identical")
 	rec.NonTrivial(fmt.Sprintf("%s|%s|reuse=%v|ntt=%v|P=%d|evkNoP=%v|base2>0=%v|evkDefault=%v", name, aliasNames[c.Alias], c.Reuse, c.RLWE.NTT, len(c.RLWE.P), c.EvkNoP, c.EvkBase2 > 0, c.EvkDefault))
 	return nil
+}
+
+// dirtyGadget fills a gadget ciphertext with random content (a key object used before).
+func dirtyGadget(p *rlwe.Parameters, g *rlwe.GadgetCiphertext) {
+	rng := h.NewSplitMix(0x6469727479)
+	for i := range g.Value {
+		for j := range g.Value[i] {
+			for k := range g.Value[i][j] {
+				r := p.RingQP().AtLevel(g.Value[i][j][k].LevelQ(), g.Value[i][j][k].LevelP())
+				fillPolyQP(&r, g.Value[i][j][k], rng, 0)
+			}
+		}
+	}
+}
+
+// ksReceiver returns input and receiver of a collective key-switch: mode 0 fresh receiver, 1 a receiver used before
+// (degree 2, maximum level, random content and other metadata), 2 receiver == a copy of the input ciphertext.
+func ksReceiver(e *env, ct *rlwe.Ciphertext, mode int, seed uint64) (in, out *rlwe.Ciphertext) {
+	switch mode {
+	case 0:
+		return ct, rlwe.NewCiphertext(e.rp, 1, ct.Level())
+	case 1:
+		d := e.mkCt(CtSpec{Deg: 2}, h.NewSplitMix(seed^0x6b73))
+		d.IsNTT = !ct.IsNTT
+		d.IsBatched = true
+		return ct, d
+	default:
+		cp := ct.CopyNew()
+		return cp, cp
+	}
 }
 
 func hashMatrixQP(m structs.Matrix[ringqp.Poly]) string {
@@ -248,6 +320,8 @@ func runMP(c MPCase, rec *h.Rec) error {
 		rec.Class("evk:default")
 	}
 
+	dirtyRng := func() *h.SplitMix { return h.NewSplitMix(c.Seed ^ 0xd1d1) }
+
 	var pan string
 	var res error
 	_, pan = protect(func() error {
@@ -260,6 +334,15 @@ func runMP(c MPCase, rec *h.Rec) error {
 				gen:    func(i int, out *multiparty.PublicKeyGenShare) error { pr.GenShare(sks[i], crp, out); return nil },
 				agg:    func(a, b multiparty.PublicKeyGenShare, out *multiparty.PublicKeyGenShare) error { pr.AggregateShares(a, b, out); return nil },
 				inputs: func() string { return skFP() + fmt.Sprintf("crp:%x", hashPolyQP(crp.Value)) },
+				fin: func(agg multiparty.PublicKeyGenShare, mode int) (string, error) {
+					out := rlwe.NewPublicKey(p)
+					if mode != 0 {
+						fillPolyQP(p.RingQP(), out.Value[0], dirtyRng(), 0)
+						fillPolyQP(p.RingQP(), out.Value[1], dirtyRng(), 0)
+					}
+					pr.GenPublicKey(agg, crp, out)
+					return fmt.Sprintf("%x.%x", hashPolyQP(out.Value[0]), hashPolyQP(out.Value[1])), nil
+				},
 			})
 		case "RelinearizationKeyGen":
 			pr := multiparty.NewRelinearizationKeyGenProtocol(p)
@@ -307,6 +390,14 @@ func runMP(c MPCase, rec *h.Rec) error {
 					return nil
 				},
 				inputs: fp,
+				fin: func(agg multiparty.RelinearizationKeyGenShare, mode int) (string, error) {
+					out := rlwe.NewRelinearizationKey(p, evkp...)
+					if mode != 0 {
+						dirtyGadget(&p, &out.GadgetCiphertext)
+					}
+					pr.GenRelinearizationKey(agg1, agg, out)
+					return fmt.Sprintf("%x", hashGadget(&out.GadgetCiphertext)), nil
+				},
 			})
 		case "EvaluationKeyGen":
 			pr := multiparty.NewEvaluationKeyGenProtocol(p)
@@ -316,6 +407,14 @@ func runMP(c MPCase, rec *h.Rec) error {
 				gen:    func(i int, out *multiparty.EvaluationKeyGenShare) error { return pr.GenShare(sks[i], skOut, crp, out) },
 				agg:    func(a, b multiparty.EvaluationKeyGenShare, out *multiparty.EvaluationKeyGenShare) error { return pr.AggregateShares(a, b, out) },
 				inputs: func() string { return skFP() + "crp:" + hashMatrixQP(crp.Value) },
+				fin: func(agg multiparty.EvaluationKeyGenShare, mode int) (string, error) {
+					out := rlwe.NewEvaluationKey(p, evkp...)
+					if mode != 0 {
+						dirtyGadget(&p, &out.GadgetCiphertext)
+					}
+					err := pr.GenEvaluationKey(agg, crp, out)
+					return fmt.Sprintf("%x", hashGadget(&out.GadgetCiphertext)), err
+				},
 			})
 		case "GaloisKeyGen":
 			pr := multiparty.NewGaloisKeyGenProtocol(p)
@@ -326,6 +425,53 @@ func runMP(c MPCase, rec *h.Rec) error {
 				gen:    func(i int, out *multiparty.GaloisKeyGenShare) error { return pr.GenShare(sks[i], galEl, crp, out) },
 				agg:    func(a, b multiparty.GaloisKeyGenShare, out *multiparty.GaloisKeyGenShare) error { return pr.AggregateShares(a, b, out) },
 				inputs: func() string { return skFP() + "crp:" + hashMatrixQP(crp.Value) },
+				fin: func(agg multiparty.GaloisKeyGenShare, mode int) (string, error) {
+					out := rlwe.NewGaloisKey(p, evkp...)
+					if mode != 0 {
+						dirtyGadget(&p, &out.GadgetCiphertext)
+						out.GaloisElement, out.NthRoot = 12345, 7
+					}
+					err := pr.GenGaloisKey(agg, crp, out)
+					return fmt.Sprintf("%d.%d.%x", out.GaloisElement, out.NthRoot, hashGadget(&out.GadgetCiphertext)), err
+				},
+			})
+		case "Threshold":
+			thr := multiparty.NewThresholdizer(p)
+			var polys [2]multiparty.ShamirPolynomial
+			for i := range polys {
+				var err error
+				if polys[i], err = thr.GenShamirPolynomial(2, sks[i]); err != nil {
+					return err
+				}
+			}
+			polyFP := func() string {
+				s := ""
+				for i := range polys {
+					for j := range polys[i].Value {
+						s += fmt.Sprintf("%x.", hashPolyQP(polys[i].Value[j]))
+					}
+				}
+				return s
+			}
+			recipient := multiparty.ShamirPublicPoint(1 + c.Rot%3)
+			points := []multiparty.ShamirPublicPoint{1, 2, 3}
+			res = mpCheck(c, rec, mpOps[multiparty.ShamirSecretShare]{
+				alloc:  thr.AllocateThresholdSecretShare,
+				gen:    func(i int, out *multiparty.ShamirSecretShare) error { thr.GenShamirSecretShare(recipient, polys[i], out); return nil },
+				agg:    func(a, b multiparty.ShamirSecretShare, out *multiparty.ShamirSecretShare) error { return thr.AggregateShares(a, b, out) },
+				inputs: func() string { return skFP() + "poly:" + polyFP() },
+				fin: func(agg multiparty.ShamirSecretShare, mode int) (string, error) {
+					cmb := multiparty.NewCombiner(p, recipient, points, 2)
+					out := rlwe.NewSecretKey(p)
+					if mode != 0 {
+						fillPolyQP(p.RingQP(), out.Value, dirtyRng(), 0)
+						// an earlier combination on the same combiner
+						_ = cmb.GenAdditiveShare([]multiparty.ShamirPublicPoint{3, 2, 1}, recipient, agg, rlwe.NewSecretKey(p))
+					}
+					actives := []multiparty.ShamirPublicPoint{recipient, 1 + (recipient % 3)}
+					err := cmb.GenAdditiveShare(actives, recipient, agg, out)
+					return fmt.Sprintf("%x", hashPolyQP(out.Value)), err
+				},
 			})
 		case "KeySwitch":
 			pr, err := multiparty.NewKeySwitchProtocol(p, noise)
@@ -337,6 +483,11 @@ func runMP(c MPCase, rec *h.Rec) error {
 				gen:    func(i int, out *multiparty.KeySwitchShare) error { pr.GenShare(sks[i], skOut, ct, out); return nil },
 				agg:    func(a, b multiparty.KeySwitchShare, out *multiparty.KeySwitchShare) error { return pr.AggregateShares(a, b, out) },
 				inputs: func() string { return skFP() + ctFP() },
+				fin: func(agg multiparty.KeySwitchShare, mode int) (string, error) {
+					in, out := ksReceiver(e, ct, mode, c.Seed)
+					pr.KeySwitch(in, agg, out)
+					return fmt.Sprintf("%v", snapEl(out.El(), false)), nil
+				},
 			})
 		default:
 			pr, err := multiparty.NewPublicKeySwitchProtocol(p, noise)
@@ -348,6 +499,11 @@ func runMP(c MPCase, rec *h.Rec) error {
 				gen:    func(i int, out *multiparty.PublicKeySwitchShare) error { pr.GenShare(sks[i], pk, ct, out); return nil },
 				agg:    func(a, b multiparty.PublicKeySwitchShare, out *multiparty.PublicKeySwitchShare) error { return pr.AggregateShares(a, b, out) },
 				inputs: func() string { return skFP() + ctFP() },
+				fin: func(agg multiparty.PublicKeySwitchShare, mode int) (string, error) {
+					in, out := ksReceiver(e, ct, mode, c.Seed)
+					pr.KeySwitch(in, agg, out)
+					return fmt.Sprintf("%v", snapEl(out.El(), false)), nil
+				},
 			})
 		}
 		return nil
